@@ -11,7 +11,7 @@ import (
 func init() {
 	register(&propSpec{ID: "C14", Level: "other", Run: runC14,
 		Explain: otherNote + "C14: decided = the line's IDs are unioned into the result in both modes; measured mode only adds current elements of the candidate list the skipped mode returns, and only where distance < radius (the parameter itself); the search box is sized by the maximum layer fit over all line voxels and does not depend on map iteration order; result de-duplicated; negative radius / bad zoom / nil points fail. The geometric distance bound and the radius-0 identity are NOT decided.",
-		Canary: []CanaryExpect{{Rule: "NOORDERDEP", Bad: "canaryBadFirstOfUnique", Good: "canaryGoodRangeUnique"}}})
+		Canary:  []CanaryExpect{{Rule: "NOORDERDEP", Bad: "canaryBadFirstOfUnique", Good: "canaryGoodRangeUnique"}}})
 	register(&propSpec{ID: "C15", Level: "other", Run: runC15,
 		Explain: otherNote + "C15: decided = every documented exclusion (guard table, 90+ rows) leads to a failure return on every path under its abstract scenario, with no reachable constant index into a split ID and no nil dereference before the check; no strconv error of caller text is dropped or overwritten; Point fields are written only by guarded setters with the documented rounding; failure returns of the overlap checks and tile conversions carry false / nil.",
 		Canary: []CanaryExpect{
